@@ -270,6 +270,15 @@ func (r *Run) Exec(i int) *OpResult {
 			res.Info = &InfoObs{Touched: info.ID != infoSentinel || info.Inputs != nil || info.Outputs != nil,
 				ID: int(info.ID), Inputs: inputsStr(info.Inputs), Outputs: outputsStr(info.Outputs)}
 		}
+		if err == nil && !facts.Escaped {
+			if w.HomeOf == nil {
+				w.HomeOf = map[int]int{}
+			}
+			w.HomeOf[f.ID] = op.Scope
+			if f.Export {
+				w.HomeOf[f.ID] = 0
+			}
+		}
 	case OpDecorate:
 		f := &r.H.Funcs[op.Fn]
 		var info *dig.DecorateInfo
